@@ -110,6 +110,13 @@ def temperature(ctx, rng):
                 m[k] = 0          # all variables cancelled, bookkeeping stale
         stale = True
         ctx.cat("temperature:stale-model")
+    elif tn != "dict" and len(m) > 1 and rng.random() < 0.1:
+        vs_ = sorted({x for k in m for x in k}, key=repr)
+        if vs_:
+            gone = rng.choice(vs_)
+            for k in [k for k in m if gone in k]:
+                m[k] -= m[k]      # one variable cancelled, the others alive
+            ctx.cat("temperature:partially-stale-model")
     style = rng.choice(["default", "pair", "zero-end", "zero-both", "equal"])
     kw = {"spin": kind == "spin"}
     if style == "pair":
@@ -127,6 +134,7 @@ def temperature(ctx, rng):
         ctx.cat("temperature:equal-probs")
     w = {"function": "anneal_temperature_range", "type": tn, "terms": dict(m), "kwargs": kw, "stale": stale}
     snap = dict(m)
+    book = (m.variables, m.degree, m.num_binary_variables, m.max_index) if tn != "dict" else None
     tag = "anneal_temperature_range:" + ("stale-model:" if stale else "")
     try:
         res = L.sim.anneal_temperature_range(m, **kw)
@@ -135,8 +143,8 @@ def temperature(ctx, rng):
         ctx.violation(tag + "raises-" + type(e).__name__, "anneal_temperature_range raised %r" % (e,), w)
         return
     ctx.count("temperature-range-calls")
-    if dict(m) != snap:
-        ctx.violation(tag + "model-mutated", "argument changed", w)
+    if dict(m) != snap or (book is not None and (m.variables, m.degree, m.num_binary_variables, m.max_index) != book):
+        ctx.violation(tag + "model-mutated", "argument (terms or variables/degree bookkeeping) changed", w)
         return
     T0, Tf = res
     p = ref.from_raw(kind, dict(m))
